@@ -161,7 +161,7 @@ var propC14 = &simProp{
 	ID: "C14",
 	Profile: sim.Profile{
 		Name: "C14", Voters: [2]int{1, 5}, Phases: [2]int{2, 7},
-		Patterns: []string{"P6", "P6", "P6", "P6", "P7", "P7", "free", "free", "P11", "P1", "P12", "P4b"},
+		Patterns: []string{"P6", "P6", "P6", "P6", "P7", "P7", "P26", "P26", "free", "free", "P11", "P1", "P12", "P4b"},
 		Writes:   true, Crashes: true, Stops: true, Snapshots: "both", BigPayload: true, EpilogueET: 12, Prologue: true,
 	},
 	Owns: []string{"C14", "C01", "C02", "C06", "C07"},
@@ -218,7 +218,7 @@ var propC15 = &simProp{
 	ID: "C15",
 	Profile: sim.Profile{
 		Name: "C15", Voters: [2]int{1, 5}, NonVoters: [2]int{0, 1}, Phases: [2]int{1, 6},
-		Patterns: []string{"P1", "P2", "P3", "P4", "P4b", "P5", "P6", "P7", "P7", "P8", "P11", "P12", "free", "free", "stopstart", "P10"},
+		Patterns: []string{"P1", "P2", "P3", "P4", "P4b", "P5", "P6", "P7", "P7", "P8", "P11", "P12", "free", "free", "stopstart", "P10", "P26", "P25", "P22"},
 		Writes:   true, Crashes: true, Stops: true, Snapshots: "both", BigPayload: true, Membership: true, EpilogueET: 40, Prologue: true,
 		MaxDelayUs: []int{400, 2000, 5000},
 	},
